@@ -2,6 +2,7 @@ package main
 
 import (
 	"fmt"
+	"go/ast"
 	"go/token"
 	"go/types"
 	"sort"
@@ -49,6 +50,23 @@ func rulesC18(c *Ctx, r *Report) {
 			have[y.f.name] = true // calls the callback itself or hands it to a function / literal that is checked in turn
 		}
 	}
+	// an iterator whose body is a method value or a named function instead of a literal: found through the values
+	havePos := map[token.Pos]bool{}
+	for _, y := range yds {
+		if (len(y.sites) > 0 || len(y.delegs) > 0) && y.f.decl != nil && y.f.node == ast.Node(y.f.decl) {
+			havePos[y.f.decl.Name.Pos()] = true
+		}
+	}
+	for _, w := range want {
+		if !have[w] && strings.HasSuffix(w, "$1") {
+			base := strings.TrimSuffix(w, "$1")
+			if i := strings.LastIndex(base, "."); i > 0 {
+				if ib := c.iterBody(c.fn(base[:i], base[i+1:])); ib != nil && ib.f != nil && havePos[ib.f.Pos()] {
+					have[w] = true
+				}
+			}
+		}
+	}
 	for _, w := range want {
 		if !have[w] {
 			r.undecided("YD1", w, "anchor", "", "iterator function named by the property was not found with a called bool callback (renamed, removed, or restructured): the rule cannot vouch for it")
@@ -77,6 +95,23 @@ func rulesC18(c *Ctx, r *Report) {
 	r.floor("CLOSE", rulesCloseAllExits(c, r), 4, "aio.Open call sites in the File functions (6 today)")
 	rulesTrieKeys(c, r)
 	rulesCanonical(c, r)
+	// what the leading items are made of: ForEach and keys do not write the trie (a key list cached in the node goes
+	// stale); the fastq record does not alias the scanner's buffer (an item handed out changes when the run goes on);
+	// the newick name helpers stay in bounds (a lone quote at the end of the input)
+	{
+		e := effFor(c)
+		for _, name := range []string{"(*Trie).ForEach", "role:trie.keys"} {
+			f := c.fn("trie", name)
+			if strings.HasPrefix(name, "role:") {
+				f = c.role(strings.TrimPrefix(name, "role:"))
+			}
+			if f != nil {
+				e.rulePure(r, "PURE", f, "t")
+			}
+		}
+	}
+	rulesScanAliasPkg(c, r, "formats/fastq")
+	rulesNewickNames(c, r)
 	_ = lits
 }
 
